@@ -12,6 +12,7 @@ import os
 
 from vlib import Broken, log
 
+PROPS = {"C05": "model_checking"}
 HARNESS = ["zz_verif_ring_test.go"]
 
 
